@@ -360,6 +360,10 @@ E2E = [
     (dict(x=(0, 3), b='bool'), r"b' <=> (x > 1)", ["b'"]),
     (dict(x=(0, 2), y=(0, 2), z=(0, 3)), r"(y' >= x) /\ (z' = y' + 1) /\ (x = 2 => y' # 2 \/ z = 0)", ["y'", "z'"]),
     (dict(x=(-2, 1), y=(-2, 1)), r"(y' + x = 0) \/ (x = -2 /\ y' = y)", ["y'"]),
+    # requested outputs that the relation leaves free (unmentioned, or mentioned vacuously)
+    (dict(x=(0, 3), y=(0, 3), z=(0, 7), c='bool'), r"(y' = x) /\ (z' >= 0) /\ (c' \/ ~ c')", ["y'", "z'", "c'"]),
+    (dict(x=(0, 2), y=(0, 2), z=(-2, 1)), "y' # x", ["y'", "z'"]),
+    (dict(x=(0, 1), y=(0, 1), b='bool'), 'TRUE', ["y'", "b'"]),
 ]
 
 
